@@ -97,6 +97,15 @@ def _packed(case):
     # single-precision inputs give single-precision results: compare those to 2^-20 relative
     tol = 1e-6 if any(d == "float32" for d in dts) else 1e-9
     oc = D.judge("C07", op, params, cols, res, (len(tuples),), viols, tag, counters, V, tol=tol)
+    # the same call with the keyword arguments handed over in the opposite order (B = ..., A = ...; Weights before InFieldNames)
+    viols_r = []
+    res_r = D.execute(op, arrays, params, reverse_keywords=True)
+    D.judge("C07", op, params, cols, res_r, (len(tuples),), viols_r, dict(tag, keyword_order="reversed"), {"judged": 0, "unspecified": 0}, V, tol=tol)
+    have = {v["key"] for v in viols}
+    for v in viols_r:
+        if v["key"] not in have:
+            v["key"] += ":keywords-reversed"
+            viols.append(v)
     # key must distinguish the dtype order for raised errors (Sum([int,float]) vs Sum([float,int]))
     for v in viols:
         if ":raised:" in v["key"] or ":mask-dropped" in v["key"]:
